@@ -2,6 +2,7 @@
    fx = the checked tree has the repair of finding F4 (transmit() drains the event queue after sending); the
    harness probes it on the running code.  The adapter theorems hold for both values. *)
 From AQ Require Import lib.Base model.Adapter model.Router model.ServerComp proofs.AdapterProofs proofs.RouterProofs proofs.ServerCompProofs proofs.AdapterReaderProofs.
+From AQ Require Import gen.C19Shield model.AdapterCancel proofs.AdapterCancelProofs.
 
 (* waiter_exactly_once, part 1: for every sequence of callbacks, API calls and event lists, no step ever
    resolves a future twice (set_result/set_exception never raises InvalidStateError). *)
@@ -173,3 +174,82 @@ Theorem reader_prefix_then_eof : forall fx ops sid,
   view sid s = rs_rd (spec sid lg) /\ rs_bad (spec sid lg) = false /\ rs_term (spec sid lg) = closed s.
 Proof. exact reader_prefix_then_eof_l. Qed.
 Print Assumptions reader_prefix_then_eof.
+
+(* ---------- cancellation of the application coroutines that await the adapter's waiters ----------------------
+   model/AdapterCancel.v: a schedule is a list of adapter steps interleaved AT ANY POSITION with `CCancel i` (the task
+   awaiting future i -- ping waiter or connected waiter -- is cancelled: task.cancel(), wait_for / timeout deadline),
+   `CCancelClosed` (a task in wait_closed()) and `CResume i`.  `waiters_shielded` (gen/C19Shield.v) is read from the
+   source of the checked tree by tools/gen/c19_shield.py: every await of a registered waiter is
+   `await asyncio.shield(waiter)` and no code outside the event loop touches the waiter tables.  The proofs are
+   about `true`: on a tree that awaits a registered waiter bare, or pops it in a `finally`, they no longer check. *)
+
+(* waiter_never_resolved_twice over schedules with cancellation steps: no step raises InvalidStateError *)
+Theorem waiter_never_resolved_twice_under_cancellation : forall fx cops o,
+  fst (fst (cstep waiters_shielded fx (crun waiters_shielded fx cinit cops) o)) <> Some X_INVALID_STATE.
+Proof. exact cancel_never_resolved_twice_l. Qed.
+Print Assumptions waiter_never_resolved_twice_under_cancellation.
+
+(* waiter_all_resolved_at_termination over schedules with cancellation steps (datagram / timer callback) *)
+Theorem waiter_all_resolved_at_termination_under_cancellation : forall fx cops evs gt etx out c',
+  uids_fresh fx st_init (erase cops) ->
+  let c := crun waiters_shielded fx cinit cops in
+  In (EvTerminated 0) (evq (base c) ++ evs) ->
+  cstep waiters_shielded fx c (CBase (ORecv evs gt etx)) = (None, out, c') ->
+  forall i, nth_error (futs (base c')) i <> Some FPending.
+Proof. exact cancel_all_resolved_at_termination_l. Qed.
+Print Assumptions waiter_all_resolved_at_termination_under_cancellation.
+
+Theorem waiter_all_resolved_at_termination_timer_under_cancellation : forall fx cops w now evs gt etx out c',
+  uids_fresh fx st_init (erase cops) ->
+  let c := crun waiters_shielded fx cinit cops in
+  In (EvTerminated 0) (evq (base c) ++ evs) ->
+  cstep waiters_shielded fx c (CBase (OTimer w now evs gt etx)) = (None, out, c') ->
+  forall i, nth_error (futs (base c')) i <> Some FPending.
+Proof. exact cancel_all_resolved_at_termination_timer_l. Qed.
+Print Assumptions waiter_all_resolved_at_termination_timer_under_cancellation.
+
+Theorem no_waiter_pending_once_closed_under_cancellation : forall fx cops, uids_fresh fx st_init (erase cops) ->
+  closed (base (crun waiters_shielded fx cinit cops)) = true ->
+  forall i, nth_error (futs (base (crun waiters_shielded fx cinit cops))) i <> Some FPending.
+Proof. exact cancel_no_waiter_pending_once_closed_l. Qed.
+Print Assumptions no_waiter_pending_once_closed_under_cancellation.
+
+(* cancellation_is_harmless: insert cancellation steps anywhere into any schedule `ops` of the adapter: every adapter
+   step returns / raises what it did without them and leaves the same adapter state (hence the same state of every
+   future, after every step), and the inserted steps raise nothing and leave the adapter untouched *)
+Theorem cancellation_is_harmless : forall fx ops cops, erase cops = ops ->
+  ctrace waiters_shielded fx cinit cops = trace fx st_init ops /\
+  base (crun waiters_shielded fx cinit cops) = run fx st_init ops /\
+  (forall c o, (forall b, o <> CBase b) ->
+     fst (fst (cstep waiters_shielded fx c o)) = None /\ snd (fst (cstep waiters_shielded fx c o)) = [] /\
+     base (snd (cstep waiters_shielded fx c o)) = base c).
+Proof. exact cancellation_is_harmless_l. Qed.
+Print Assumptions cancellation_is_harmless.
+
+(* a cancelled caller gets CancelledError and nothing else; any other caller gets the outcome its future has in
+   the schedule without the cancellations *)
+Theorem caller_outcome_under_cancellation : forall fx cops i,
+  caller_outcome (crun waiters_shielded fx cinit cops) i =
+  if has_cancel i cops then OCancelled else outcome_of (nth_error (futs (run fx st_init (erase cops))) i).
+Proof. exact caller_outcome_l. Qed.
+Print Assumptions caller_outcome_under_cancellation.
+
+(* the unshielded variant (`await waiter`, with or without `finally: _ping_waiters.pop(uid, None)`):
+   [ping a; ping b; cancel a's caller; ConnectionTerminated] -> set_exception on a cancelled future: InvalidStateError
+   escapes the callback, b's waiter stays pending and registered, the closed event is not set; the same schedule under
+   the shield discipline: no exception, both futures failed, table empty, closed set, a's caller cancelled, b's caller
+   ConnectionError *)
+Theorem unshielded_cancellation_refuted : forall fx,
+  let r := cstep false fx (crun false fx cinit unshielded_witness) terminate_op in
+  let r' := cstep true fx (crun true fx cinit unshielded_witness) terminate_op in
+  (fst (fst r) = Some X_INVALID_STATE /\
+   closed (base (snd r)) = false /\
+   nth_error (futs (base (snd r))) 1 = Some FPending /\
+   pings (base (snd r)) <> []) /\
+  (fst (fst r') = None /\
+   closed (base (snd r')) = true /\
+   futs (base (snd r')) = [FErr; FErr] /\
+   pings (base (snd r')) = [] /\
+   caller_outcome (snd r') 0 = OCancelled /\ caller_outcome (snd r') 1 = OConnectionError).
+Proof. exact unshielded_cancellation_refuted_l. Qed.
+Print Assumptions unshielded_cancellation_refuted.
